@@ -16,7 +16,7 @@ func init() {
 		Patterns: []string{"./pkg/router", "./pkg/upstream/cluster"},
 		Explanation: "Difference reasoning on the SSA of RouteRuleImplBase.ClusterName: the draw x comes from Intn(total) (0 <= x < total); the cumulative scan must be one of two exact idioms (subtract-then-test `x-w < 0`, or test-then-subtract `x < w`), for which the loop invariant x >= 0 holds on the continue edge and w >= 1 is implied on the return edge, so entry k owns exactly the draws cum(k-1) <= x < cum(k), a zero-weight entry is unreachable and storage order is irrelevant. " +
 			"(R2) the draw range is the sum of exactly the weights stored in the scanned map (one addition per inserted entry, same weight value, both results stored by the one constructor, no other writer). " +
-			"(R3) the EDF scheduler's deadline update has the shape deadline += 1/weight with currentTime advanced to the served deadline and a min-heap on (deadline, queuedTime) — necessary for the bounded-lag property, which itself (a numeric inequality over float deadlines) is not decided. (R3, stale) no statically known writer of edfEntry.deadline runs between the load of the served entry's deadline and the store that advances it.",
+			"(R3) the EDF scheduler's deadline update has the shape deadline += 1/weight with currentTime advanced to the served deadline and a min-heap on (deadline, queuedTime) — necessary for the bounded-lag property, which itself (a numeric inequality over float deadlines) is not decided. (R3, stale) no statically known writer of edfEntry.deadline runs between the load of the served entry's deadline and the store that advances it. (R3, all hosts) the Range callback of EdfLoadBalancer.refresh calls the scheduler's Add unconditionally for every host.",
 		Run: runC06,
 	})
 }
